@@ -1180,7 +1180,13 @@ fn run_simplify(prog_s: &str, out: &mut Out, hist: &mut Hist) {
                             rssl::ir::TypeLayer::Object(_) => "obj",
                             _ => "plain",
                         };
-                        v.push(format!("global:{}:{}:{}", g.name.node, kind, if g.api_slot.is_some() { "slot" } else { "noslot" }));
+                        // whether an ordinary global has a slot depends on the binding parameters (static samplers on
+                        // Metal): only the globals made from cbuffer blocks are expected to carry one whatever they are
+                        if cbuffers.iter().any(|(n, _)| *n == g.name.node) {
+                            v.push(format!("global:{}:{}:{}", g.name.node, kind, if g.api_slot.is_some() { "slot" } else { "noslot" }));
+                        } else {
+                            v.push(format!("global:{}:{}", g.name.node, kind));
+                        }
                     }
                 }
                 rssl::ir::RootDefinition::ConstantBuffer(id) => {
